@@ -440,6 +440,10 @@ fn order_checks(
             }
             key.push(t.branch);
             key.push(t.step);
+            // the evaluation of an operand expression is not ordered against the events of its segment
+            if l + 1 == e.tag.len() && prog.ev(e.ev).map(|m| m.kind == EvKind::Mk).unwrap_or(false) {
+                continue;
+            }
             // unit within this segment
             let (uid, is_direct) = if l + 1 == e.tag.len() {
                 ((0u32, e.ev, e.occ), true)
